@@ -304,9 +304,11 @@ Same(v, r, half, D) ==
                                        /\ Same(v[3][i][2], r[3][i][2], half, D)
       [] OTHER -> FALSE
 
-HasUnreadableEscape(cc, v) ==
+HasUnreadableEscape(cc, v) ==      \* (a string key counts once keys are printed like strings)
     Exists(v, LAMBDA x : \/ x[1] = "str" /\ StrHas(cc, x[2], LAMBDA k : ZyBadClass(k, "str"))
-                         \/ x[1] = "chr" /\ ZyBadClass(ClassOf(cc, x[2]), "chr"))
+                         \/ x[1] = "chr" /\ ZyBadClass(ClassOf(cc, x[2]), "chr")
+                         \/ x[1] = "hash" /\ \E i \in 1..Len(x[3]) :
+                               x[3][i][1][1] = "str" /\ StrHas(cc, x[3][i][1][2], LAMBDA k : ZyBadClass(k, "str")))
 HasHugePlainFloat(v) == Exists(v, LAMBDA x : PlainFloat(x) /\ ~FitsInt64(NumVal(x)))
 HasPlainFloat(v) == Exists(v, LAMBDA x : PlainFloat(x))
 HasWideChar(v) == Exists(v, LAMBDA x : x[1] = "chr" /\ x[2] >= 128)
